@@ -1068,7 +1068,7 @@ static void add_ref_seeds(void) {
 		rs_build(&s, &p);
 		/* the second metadata link also carries machine id, sequence number (three octets: beyond the SDK's pool of small
 		 * integers) and request time */
-		ref_meta_seqnr = 70007;
+		ref_meta_seqnr = (tail == 3 && rfc == 0) ? 256 : (tail == 2) ? 65536 : 70007;   /* 256: the first value beyond the pool */
 		ref_link_meta(&s.ch[1].links[1], 0, "cl", 0, 1, 2);
 		ref_meta_seqnr = 7;
 		if (rs_fix(&s, RS_FIX_INPUTS | RS_FIX_CAL_IN | RS_FIX_TAIL) != 0) vf_harness_error("reference seed");
